@@ -7,7 +7,7 @@ props = [json.loads(l) for l in open(os.path.join(ROOT, "properties.jsonl"))]
 # id -> (category, technique, level text, level note, design_ref)
 BUILT = {
  "C01": ("exploration", "bounded exhaustive small-scope enumeration of term trees, differential against an independent ETF codec",
-         "Every term tree over a boundary leaf alphabet (199 leaves: every integer/bignum/float/atom/binary/identifier/fun encoding boundary) under every constructor up to arity 2 exhaustively, arity 3 and 255/256 over representatives, depth 2 (3 in thorough) is encoded (also through encode_to_writer under short writes), read by an independent reader, decoded and re-encoded; exhaustive inside the stated alphabet and depth, silent outside it.",
+         "Every term tree over a boundary leaf alphabet (199 leaves: every integer/bignum/float/atom/binary/identifier/fun encoding boundary) under every constructor up to arity 2 exhaustively, arity 3 and 255/256 over representatives, depth 2 (3 in thorough) is encoded (also through encode_to_writer under short writes), read by an independent reader, decoded by the owned and the zero-copy decoder and re-encoded; lists of 254..70 000 byte-sized integers; atoms judged against their names as strings; the sender-cache histories of C14; exhaustive inside the stated alphabet and depth, silent outside it.",
          "Trusted: the independent reference codec in harness/vcore (written from erl_ext_dist, unit-tested on hand-derived vectors), flate2. Values outside the alphabet and containers >2^32 elements are not covered.", "3/C01"),
  "C03": ("exploration", "bounded exhaustive enumeration of all admissible wire encodings per value, each validated by an independent reader",
          "For every value of the alphabet and every tree of <=4 nodes the full product of admissible encodings of every node (integer widths, zero-padded bignums, text floats, four atom tags incl. Latin-1, STRING_EXT, non-minimal empty lists, small/large tuples, three generations of identifier tags, LOCAL_EXT, map entry orders, COMPRESSED) is decoded by every owned entry point (decode, decode_with_trailing, decode_with_atom_cache, decode_with_cache, decode_raw_term) and compared by value; larger trees vary one node at a time; plus history independence: each of 1 437 rejected inputs decoded 300 times on a fresh thread through four entry points, after which seven valid canaries must decode as on an untouched thread. Exhaustive inside those bounds.",
@@ -27,8 +27,8 @@ BUILT = {
  "C13": ("exploration", "differential exhaustive enumeration: corpus, all truncations/mutations/splices, all short byte strings",
          "Both decoders run on every corpus encoding, every truncation, per-byte mutation and splice of the short ones and on ALL byte strings 131++s with |s|<=2 (3 in thorough); corpus includes all two-key maps over 26 numeric keys, funs with every integer encoding of OldIndex/OldUniq and lists with 40 kinds of tail; history independence as in C03; results must agree structurally (floats by bits, raw identifier bytes), modern-tag inputs accepted by the owned decoder must be accepted, error offsets must lie inside the input.",
          "Inputs whose declared element counts exceed the input are left to C02 (they are decoded there under a process supervisor).", "3/C13"),
- "C02": ("exploration", "exhaustive enumeration of finite adversarial input families under a process supervisor with a counting allocator",
-         "Every tag x boundary values of its length/arity/count fields x tails, 21 nesting paths (containers, fun environment, LOCAL_EXT and the node/module/creator fields of every identifier and fun tag) to depth 2^16 (2^22 thorough), every truncation/mutation/splice of a corpus, compressed sections that lie about their size, fragment header prefixes - all through nine decode entry points in child processes on a 2 MiB-stack thread; outcome must be ok/err, peak requested bytes <= 512*(len+inflated)+256 KiB, over-declared inflation must be an error.",
+ "C02": ("exploration", "exhaustive enumeration of finite adversarial input families under a process supervisor with a counting allocator + every malformed frame of the receive alphabet through the real Connection",
+         "Every tag x boundary values of its length/arity/count fields x tails, 21 nesting paths (containers, fun environment, LOCAL_EXT and the node/module/creator fields of every identifier and fun tag) to depth 2^16 (2^22 thorough), every truncation/mutation/splice of a corpus, compressed sections that lie about their size, fragment header prefixes, all scripts of <=3 operations on a fragment assembler, header entries in every segment - all through ten entry points in child processes on a 2 MiB-stack thread; outcome must be ok/err, peak requested bytes <= 512*(len+inflated)+256 KiB, over-declared inflation must be an error; (netmc c02) every malformed frame and 300-frame junk floods through both receive loops: one error per frame, never a panic.",
          "Trusted: the supervisor and counting allocator in etfmc (alloc.rs, probe.rs), flate2 for measuring inflated sizes. The linear factor 512 and the 256 KiB slack are this check's reading of 'out of proportion'.", "3/C02"),
  "C04": ("model_checking", "explicit-state BFS over the real handshake machine + exhaustive enumeration of scripted-peer deviations against the real Connection::connect",
          "(a) BFS over all sequences of the state machine's public methods with valid, malformed, stale, reflected and oversized arguments, every history replayed on a fresh real object; flag/cookie/name/creation sweeps, every truncation of every peer message, 180 unknown status words and all 128 single-bit flips of the right acknowledgement digest under catch_unwind; (b) the real connect over loopback against 13x12x12 scripted peer behaviours (incl. peers that insert an empty, junk or repeated frame and carry on; 29 cookie executions: exact cookie connects, trimmed/padded/re-cased variants do not) on a controller-owned clock, emitted bytes parsed by an independent reader, connection reused after close().",
@@ -45,8 +45,8 @@ BUILT = {
  "C09": ("model_checking", "explicit-state BFS whose transitions call the real FragmentAssembler + arrival-order enumeration against the real Connection",
          "BFS over event histories (header, continuations, one duplicate, out-of-range ids, cleanup) for every message length 1..6 x fragment count x cut and for 2-4 interleaved sequences; every history replayed on a fresh real assembler; step oracle: delivery exactly at the last missing fragment with the original bytes, pending_count = incomplete sequences; the expiry clause on the real clock (six arrival orders, measured gaps); 324 histories with a reused sequence id; six ways of constructing the assembler; at the connection, all six arrival orders of a three-fragment message in two layouts, ticks and rejected fragment frames between fragments, reused ids, receive_message abandoned between fragments.",
          "State key = reference table of ids received before/after the header per sequence, which determines the assembler's future outputs; nothing is sent for a sequence after it has been delivered.", "3/C09"),
- "C14": ("model_checking", "exhaustive header-shape enumeration read by an independent header reader + BFS over sender-cache histories through one real AtomCache",
-         "(a) k distinct atoms for k in {0..4,254,255,256} x atom lengths x four placements, encoded by the library, read by an independent implementation of the header layout and by the library; (b) BFS over all histories of <=3 (4) messages of a conforming sender model (new entry / reference / overwrite, 4 slots in 3 segments, header position != slot; every cached atom also as the node of a pid, port and reference), state = sender cache contents; (c) five whole-cache histories with 257..2048 live slots; (d) a message refused after its header (three kinds of body, decoder and connection entry point) between announcements and old references.",
+ "C14": ("model_checking", "exhaustive header-shape enumeration read by an independent header reader + BFS over sender-cache histories through one real AtomCache + the send operations of a real Connection under negotiated headers",
+         "(a) k distinct atoms for k in {0..4,254,255,256} x atom lengths x four placements, encoded by the library, read by an independent implementation of the header layout and by the library; (b) BFS over all histories of <=3 (4) messages of a conforming sender model (new entry / reference / overwrite, 4 slots in 3 segments, header position != slot; every cached atom also as the node of a pid, port and reference), state = sender cache contents; (c) five whole-cache histories with 257..2048 live slots; (d) a message refused after its header (three kinds of body, decoder and connection entry point) between announcements and old references; (netmc c14) every operation of C07's list on a connection that negotiated headers, frames read by the independent header reader.",
          "Trusted: vcore header reader/writer; the as-is decoder model in c14.rs is used only to attribute the listed finding.", "3/C14"),
  "C15": ("exploration", "exhaustive value-family enumeration through both serde paths",
          "i8/u8/i16/u16 whole range, 32/64-bit integers at every power of two +-1, chars (all scalar values in thorough), f32 (all bit patterns in thorough), strings, and Option/Vec/tuple/HashMap/BTreeMap/struct/ElixirStruct/newtype/enum wrappers; options around empty and zero values, keyword field names; to_term/from_term and to_bytes/from_bytes must return the original value; 268 history cases (rejected input 900 times, then a byte round trip).",
